@@ -106,6 +106,16 @@ CLAIMS = {
                 'and ghost-box shifts is one formula under an axis permutation.',
         not_decided='completeness of detection, tree pruning radius, order independence of multi-collision steps, hard-sphere identities',
         design_ref='3/C13'),
+    'C14': dict(
+        module='c14', level='other',
+        technique='ordering/dominance checks on the removal and append paths (clang AST), constant comparison of the hash function with the published algorithm, Python ast checks of selector handling',
+        decided='in reb_simulation_remove_particle(_by_hash) every refusal (error + return 0) precedes the first statement that changes the simulation and the index range check precedes '
+                'every use of the index as a subscript; particles[N] = pt follows the growth loop, lookup-table writes follow the capacity test and use only the bounded indices, '
+                'collision-array writes follow their growth test; the lookup forms a particle pointer only under index < N, re-checks the hash, rebuilds on a miss, and an unknown hash is rejected; '
+                'reb_hash is MurmurHash3-x86-32 with the published constants and seed 1983 and Python delegates string hashing to it; every active-count decrement on removal is guarded by '
+                'index < count; Python tests optional index/hash arguments against None (0 is a legitimate value), reaches both C removal functions and processes the C messages.',
+        not_decided='histories against a list model; stale lookup tables after particular removal orders; Python container semantics beyond delegation',
+        design_ref='3/C14'),
     'C17': dict(
         module='c17', level='other',
         technique='who-reads-what over the differ and reader (clang AST + record layouts + descriptor table): pointer-blind compare, ignore-set exactness, accumulation form, allocation discipline',
